@@ -722,3 +722,139 @@ def compile_key(msg: str, names=()) -> str:
     toks = ["NAME" if t in names else t for t in toks]
     s = _re.sub(r"[^A-Za-z0-9_]+", "-", " ".join(toks)).strip("-")
     return s[:60] or "compile-failed"
+
+
+# --------------------------------------------------------------------------------------
+# classification of code-generation exceptions (listed findings keep a specific signature;
+# decided from the loaded expressions / the model text / the message, never from the printers)
+# --------------------------------------------------------------------------------------
+PW_COLLAPSES = ":piecewise-collapses-under-simplify"
+
+
+def model_exprs(ode) -> list:
+    """the sympy expressions of the loaded model's assignments"""
+    out = []
+    for a in tuple(ode.intermediates) + tuple(ode.state_derivatives):
+        ex = getattr(a, "expr", None)
+        if ex is not None:
+            out.append(ex)
+    return out
+
+
+def own_state_derivative_exprs(ode) -> list:
+    """d(rate expression)/d(own state), every other name held fixed: what the Rush-Larsen schemes print in addition to the model's expressions"""
+    import sympy
+
+    out = []
+    for sd in ode.state_derivatives:
+        try:
+            out.append(sympy.diff(sd.expr, sd.state.symbol))
+        except Exception:  # noqa: BLE001
+            pass
+    return out
+
+
+def piecewise_collapses(exprs, seconds=6.0):
+    """does sympy.simplify (what codegen.base._print_Piecewise applies before the printers index the result) turn one of the Piecewise
+    sub-expressions of `exprs` (and the Piecewise form in which sympy prints an ITE(...) inside their conditions) into something that is no longer a Piecewise of the same number (>= 2) of branches ending in a True
+    condition - or raise on it?  True / False / None (time limit reached before a verdict).  The listed defect: a condition that is
+    constant / tautological or equal branches collapse the Piecewise and the printers index what is left."""
+    import signal
+
+    import sympy
+
+    class _Late(BaseException):
+        pass
+
+    def _h(*_a):
+        raise _Late()
+
+    seen = set()
+    todo = []
+    from sympy.logic.boolalg import ITE, simplify_logic
+
+    def take(pw):
+        if isinstance(pw, sympy.Piecewise) and pw not in seen:
+            seen.add(pw)
+            todo.append(pw)
+
+    for ex in exprs:
+        try:
+            for pw in ex.atoms(sympy.Piecewise):
+                take(pw)
+                for arg in pw.args:  # a condition with ITE(...) is printed as simplify_logic(cond); sympy prints an ITE as ITE.rewrite(Piecewise)
+                    if arg.cond.has(ITE):
+                        for ite in set(arg.cond.atoms(ITE)) | set(simplify_logic(arg.cond).atoms(ITE)):
+                            take(ite.rewrite(sympy.Piecewise))
+            for ite in ex.atoms(ITE):
+                take(ite.rewrite(sympy.Piecewise))
+        except Exception:  # noqa: BLE001
+            continue
+    if not todo:
+        return False
+    todo.sort(key=lambda e_: len(str(e_)))
+    main = __import__("threading").current_thread() is __import__("threading").main_thread()
+    t0 = time.time()
+    old_h = old_t = None
+    if main:
+        old_h = signal.signal(signal.SIGALRM, _h)
+        old_t = signal.setitimer(signal.ITIMER_REAL, seconds)
+    verdict = False
+    try:
+        for pw in todo:
+            try:
+                with quiet():
+                    sx = sympy.simplify(pw)
+            except _Late:
+                raise
+            except Exception:  # noqa: BLE001 - simplify itself chokes on the Piecewise (`-1*1.0 < -1*1.0`)
+                verdict = True
+                break
+            if not isinstance(sx, sympy.Piecewise) or len(sx.args) != len(pw.args) or len(sx.args) < 2 or sx.args[-1].cond != sympy.true:
+                verdict = True
+                break
+    except _Late:
+        verdict = None
+    finally:
+        if main:
+            signal.setitimer(signal.ITIMER_REAL, 0)
+            signal.signal(signal.SIGALRM, old_h)
+            if old_t and old_t[0] > 0:  # an enclosing time limit keeps running
+                signal.setitimer(signal.ITIMER_REAL, max(0.01, old_t[0] - (time.time() - t0)), old_t[1])
+    return verdict
+
+
+def unprintable_node(e) -> str:
+    """'re' / 'ComplexInfinity' from `Unsupported by <class '...Printer'>: re`, '' when the message has another form"""
+    import re as _re
+
+    m = _re.search(r"Unsupported by <class '[^']*'>:\s*(.+)", str(e).split("\n")[0])
+    if not m:
+        return ""
+    node = m.group(1).strip()
+    c = _re.match(r"<class '([\w.]+)'>", node)
+    if c:
+        node = c.group(1).split(".")[-1]
+    return _re.sub(r"[^A-Za-z0-9_]+", "-", node.split("|")[0].strip())[:40]
+
+
+def codegen_exception_class(e, exprs=None, ref=None) -> str:
+    """suffix naming the LISTED mechanism behind an exception raised while generating / saving code, '' when none applies:
+    at a `_print_Piecewise` site ':piecewise-collapses-under-simplify' when piecewise_collapses(exprs); an AttributeError whose message
+    names a sympy Boolean for a text that uses a relational / logical value as a number ':boolean-used-arithmetically'; a
+    PrintMethodNotImplementedError ':unprintable-<node>'; an AttributeError at `_hprint_Pow` ':<message key>'."""
+    site = exc_site(e)
+    if "_print_Piecewise" in site and exprs is not None and piecewise_collapses(exprs):
+        return PW_COLLAPSES
+    if isinstance(e, AttributeError) and "Boolean" in str(e):
+        try:
+            if ref is not None and ref.boolean_used_arithmetically():
+                return ":boolean-used-arithmetically"
+        except Exception:  # noqa: BLE001
+            pass
+    if type(e).__name__ == "PrintMethodNotImplementedError":
+        node = unprintable_node(e)
+        return f":unprintable-{node}" if node else ""
+    if isinstance(e, AttributeError) and site.endswith("@_hprint_Pow"):
+        return ":" + msg_key(e)
+    return ""
